@@ -101,6 +101,27 @@ package store
 //@   loop 1 invariant w > 0.0 && s.counts == old(s.counts) && (forall k int :: (has(s.counts, k) <==> old(has(s.counts, k))) && s.counts[k] == ($visited[k] ? w * old(s.counts[k]) : old(s.counts[k]))) && (forall k int :: $visited[k] ==> has(s.counts, k))
 //@   hint SetSumScale(old(vals(s.counts)), vals(s.counts), dom(s.counts), w), SetSumCong(old(vals(s.counts)), old(vals(s.counts)), old(dom(s.counts)), dom(s.counts))
 
+// ForEach: the map is enumerated in an unspecified order; every key is passed exactly once with its weight
+// until f asks to stop (the interface's iteration contract, over this store's own view).
+//@ func SparseStore.ForEach
+//@   serves C04 C12 C14
+//@   requires MInv(s)
+//@   ghost visited set := emptyset()
+//@   ghost stopped bool := false
+//@   callback f params index, count
+//@   callback f results stop
+//@   callback f requires !stopped && !visited[index] && count == MView(s, index) && count > 0.0 && in32(index)
+//@   callback f preserves footprint(s)
+//@   callback f ghost visited := update(visited, index, true)
+//@   callback f ghost stopped := stop
+//@   ensures complete: stopped || (forall k int :: MView(s, k) > 0.0 ==> visited[k])
+//@   ensures sound: forall k int :: visited[k] ==> MView(s, k) > 0.0
+//@   ensures MInv(s) && s.counts == old(s.counts) && (forall k int :: MView(s, k) == old(MView(s, k)) && (has(s.counts, k) <==> old(has(s.counts, k))))
+//@   ensures total: MTot(s) == old(MTot(s)) using SetSumCong(old(vals(s.counts)), vals(s.counts), old(dom(s.counts)), dom(s.counts))
+//@   ensures footprintStable(s) && sameobject(s)
+//@   modifies everything()
+//@   loop 1 invariant sameobject(s) && MInv(s) && !stopped && s.counts == old(s.counts) && (forall k int :: s.counts[k] == old(s.counts[k]) && (has(s.counts, k) <==> old(has(s.counts, k)))) && (forall k int :: visited[k] <==> $visited[k]) && (forall k int :: $visited[k] ==> has(s.counts, k))
+
 //@ fun MViewArr(s *SparseStore) array_real := lambda k int :: MView(s, k)
 //@ func SparseStore.MergeWith
 //@   serves C04 C02
